@@ -62,8 +62,36 @@ def gen_history(rng, n_ops, universe):
     return ops
 
 
+def gen_tree_history(rng, n_ops, universe):
+    """tree-level histories: external ingests (several versions of a key in one file, tombstones,
+    strictly increasing timestamps across files), compaction steps, reopens, reads"""
+    ops, ts = [], 0
+    for _ in range(n_ops):
+        r = rng.below(100)
+        if r < 45:
+            ents, used = [], set()
+            for _ in range(rng.range(1, 6)):
+                k = rng.choice(universe)
+                for _ in range(rng.choice([1, 1, 1, 2, 3])):
+                    ts += 1
+                    if (k, ts) not in used:
+                        used.add((k, ts))
+                        ents.append((k, ts, None if rng.chance(1, 4) else rng.bytes(rng.choice([0, 1, 8, 40, 90]))))
+            ops.append(("ingest", ents))
+        elif r < 85:
+            ops.append(("compact", rng.choice([1, 2, 3, 8, 20, 40])))
+        elif r < 92:
+            ops.append(("reopen",))
+        else:
+            ops.append(("reads",))
+    return ops
+
+
 def run_history(lsm_exe, mx_exe, opts, ops, tag, universe=None):
-    run = lsmlib.Run(lsm_exe, mx_exe, BASE_OPTS + opts, tag, universe)
+    tree = any(op[0] == "ingest" for op in ops)
+    if tree:
+        lsm_exe = os.path.join(os.path.dirname(lsm_exe), "lsmtree")
+    run = lsmlib.Run(lsm_exe, mx_exe, BASE_OPTS + opts, tag, universe, tree=tree)
     try:
         for op in ops:
             if run.dead:
@@ -72,6 +100,9 @@ def run_history(lsm_exe, mx_exe, opts, ops, tag, universe=None):
                 run.write(op[1])
                 if len(run.events) % 3 == 0:
                     run.reads([k for k, _ in op[1]])
+            elif op[0] == "ingest":
+                run.ingest(op[1])
+                run.reads()
             elif op[0] == "flush":
                 run.flush()
                 run.reads()
@@ -117,6 +148,8 @@ def ops_to_json(ops):
     for op in ops:
         if op[0] == "w":
             out.append(["w", [[k.hex(), None if v is None else v.hex()] for k, v in op[1]]])
+        elif op[0] == "ingest":
+            out.append(["ingest", [[k.hex(), ts, None if v is None else v.hex()] for k, ts, v in op[1]]])
         else:
             out.append(list(op))
     return out
@@ -127,6 +160,8 @@ def ops_from_json(js):
     for op in js:
         if op[0] == "w":
             out.append(("w", [(bytes.fromhex(k), None if v is None else bytes.fromhex(v)) for k, v in op[1]]))
+        elif op[0] == "ingest":
+            out.append(("ingest", [(bytes.fromhex(k), ts, None if v is None else bytes.fromhex(v)) for k, ts, v in op[1]]))
         else:
             out.append(tuple(op))
     return out
@@ -135,7 +170,7 @@ def ops_from_json(js):
 def build(chk):
     okx, outx = vlib.coq_make(["theories/Lsm/Extract.vo"])
     okm, outm, mx = vlib.ocaml_build("lsm", "mx_lsm")
-    okh, outh, (lsm_exe,) = vlib.cargo_build(["lsm"])
+    okh, outh, (lsm_exe, _tree_exe) = vlib.cargo_build(["lsm", "lsmtree"])
     if not (okx and okm):
         raise RuntimeError("model build failed:\n" + outx[-1500:] + outm[-1500:])
     if not okh:
@@ -194,6 +229,13 @@ def run(chk):
         ops = gen_history(rng.fork(), rng.choice([80, 160, 320]), universe)
         jobs.append((lsm_exe, mx, opts, ops, "c01h%d" % i, universe))
         names.append(("h%d" % i, optname, ops))
+    # tree-level histories: data arrives through LsmTree::ingest of external ssts
+    for i in range(n_hist // 4):
+        optname, opts = OPTION_SETS[i % len(OPTION_SETS)]
+        universe = lsmlib.UNIVERSE[:rng.choice([4, 8, 14])]
+        ops = gen_tree_history(rng.fork(), rng.choice([40, 80, 160]), universe)
+        jobs.append((lsm_exe, mx, opts, ops, "c01t%d" % i, universe))
+        names.append(("t%d" % i, optname, ops))
     results = [(n[0], n[1], n[2], r) for n, r in zip(names, run_many(jobs))]
     steps = {}
     n_reads = n_problems = 0
